@@ -28,7 +28,9 @@ CLAIM = {
             "moved unchanged, javadoc goes through apply_diff_option(&diff.javadoc, x.javadoc) of the same level, every child map through "
             "apply_diff_map(ns, &diff.F, x.F) of the same name and level with the namespace resolved from the `namespace` argument; "
             "top-level info table; (R04.6) tiny_v2_diff::read stores the line's action as info and the comment action into the javadoc of "
-            "the same level on all four levels (one comment only), MappingsDiff::diff fills info/javadoc/children from the same level.",
+            "the same level on all four levels (one comment only), MappingsDiff::diff fills info/javadoc/children from the same level; "
+            "(R04.7) NodeInfo::new of the 9 node types stores info with no javadoc and empty children, FromKey::from_key puts the key's name "
+            "into the first namespace only, mappings_diff::add_child refuses a duplicate key.",
     "note": "Not decided: apply(diff(A,B),A) = B for all A,B, equality through the textual .tinydiff form (there is no tinydiff writer "
             "in the tree), atomicity of refusal beyond the local result map, IndexMap ordering effects of swap_remove. "
             "Trusted: rustc HIR/typeck/const-eval; spec/c04_tables.json (transcribed from the property statement and doc comments).",
@@ -47,9 +49,10 @@ def run(F, R, tier):
     r04_4(q, R, spec)
     r04_5(q, R, spec)
     r04_6(q, R, spec)
-    return ("A5 handler tables of apply_diff_map / apply_diff_option / gen_diff_* / TinyLine::action / Action codec by pattern-matrix "
-            "evaluation over the four Action variants; A6 success-path guard dominance in change_name; A4 level alignment of apply_to, "
-            "diff and tiny_v2_diff::read; oracle spec/c04_tables.json")
+    r04_7(q, R, spec)
+    return ("A5 handler tables of apply_diff_map / apply_diff_option / gen_diff_* / TinyLine::action / Action codec / node constructors by "
+            "pattern-matrix evaluation over the four Action variants; A6 success-path guard dominance in change_name; A4 level alignment of "
+            "apply_to, diff and tiny_v2_diff::read; oracle spec/c04_tables.json")
 
 
 # ------------------------------------------------------------------------------------ helpers
@@ -114,6 +117,7 @@ def r04_1(q, R, spec):
                 "diff -> Add: created from the key with names[ns]=Some(b), child diffs applied, stored; any other action -> Err. change_name "
                 "acts on the target's own names in the target namespace; the stored child is apply_child(diff, target)?; applied diffs are "
                 "removed from the pending set and the second loop runs over that set; the result map is what is returned")
+    r04_1.slot_store = {}
     fn = fn_in(q, "apply_diff_map", within="apply_diff")
     if not R.anchor(rid, "fn apply_diff_map", fn):
         return
@@ -367,7 +371,7 @@ def r04_2(q, R, spec):
                expect="`target_namespace != 0` (or Names::change_name(ns, None, Some(b))?, which checks it) before names[ns] = Some(b)",
                got=g, detail="with the first namespace as target the created entry's names[0] is overwritten by b and no longer equals its key; "
                              "the same diff on an existing entry is refused by change_name")
-    R.floor(rid, 16)
+    R.floor(rid, 17)
 
 
 # ------------------------------------------------------------------------------------ R04.3
@@ -471,6 +475,12 @@ def r04_3(q, R, spec):
             ch = pe.calls_named("chain")
             ok_u = len(ch) == 1 and sorted(T.show(x) for x in ch[0]["args"]) == ["keys($a)", "keys($b)"]
             R.inst(rid, "zip_map:key-union", ok_u, sp=fn["sp"], got=[[T.show(x) for x in e["args"]] for e in ch], expect="a.keys().chain(b.keys())")
+            outs = []
+            for e in pe.calls_named("map"):
+                if len(e["args"]) == 2 and e["args"][1][0] == "closure" and len(e["args"][1][1]["params"]) == 1 \
+                        and H.pat_peel(e["args"][1][1]["params"][0]).get("k") == "ptuple":
+                    outs.append(strip(T.show(pe.apply(e["args"][1], [("t", [S("key"), S("value")])]))))
+            R.inst(rid, "zip_map:entry", outs == ["Ok((key, combiner(value)))"], sp=fn["sp"], got=outs, expect="Ok((key.clone(), combiner(value)?)) for every key of the union")
     # zip_map_combination
     fn = fn_in(q, "zip_map_combination", within="diff_and_merge")
     if R.anchor(rid, "fn zip_map_combination", fn):
@@ -525,7 +535,7 @@ def r04_3(q, R, spec):
         ok_info = st is not None and st[0] == "st" and st[2].get("info") == T.V("None")
         R.inst(rid, "diff:top-info-none", ok_info, sp=fn["sp"], got=showv(st[2].get("info")) if st and st[0] == "st" else showv(st),
                expect="info: Action::None (namespaces are equal by the guard above)")
-    R.floor(rid, 16 + 3 + 3 + 3 + 3 + 4)
+    R.floor(rid, 36)
 
 
 # ------------------------------------------------------------------------------------ R04.4
@@ -829,7 +839,7 @@ def r04_6(q, R, spec):
     fn = fn_in(q, "diff", impl_ty="MappingsDiff")
     if R.anchor(rid, "fn MappingsDiff::diff", fn):
         diff_levels(q, R, rid, spec, fn)
-    R.floor(rid, 7 + 4 * 5 + 5 * 3)
+    R.floor(rid, 46)
 
 
 def cond_tag(cond):
@@ -1017,3 +1027,70 @@ def diff_levels(q, R, rid, spec, fn):
             else:
                 R.unrecognised(rid, key, "field without a rule", sp=e["sp"])
     R.inst(rid, "diff:levels-covered", seen == set(diff_adts), sp=fn["sp"], expect=sorted(diff_adts), got=sorted(seen))
+
+
+# ------------------------------------------------------------------------------------ R04.7
+def r04_7(q, R, spec):
+    rid = "R04.7"
+    R.rule(rid, "node construction used by additions and by the diff reader: NodeInfo::new(info) stores `info` and starts with no javadoc "
+                "(Action::None / None) and empty child maps, for the 5 diff node types and the 4 mapping node types; FromKey::from_key puts the "
+                "key's name into the first namespace only (parameters: no name) and copies desc / index from the key; add_child of a diff "
+                "node refuses an existing key and inserts otherwise")
+    levels = spec["levels"]
+    wanted = [(v["diff"], "quill::tree::mappings_diff::") for v in levels.values()] + [(k, "quill::tree::mappings::") for k in levels if k != "Mappings"]
+    for adt_name, mod in wanted:
+        adt_path = mod + adt_name
+        fns = [b for b in q.fns("new") if (b.get("impl_ty") or "").split("<")[0] == adt_path and "NodeInfo" in (b.get("impl_trait") or "")]
+        if not R.anchor(rid, "impl NodeInfo for %s: fn new" % adt_name, len(fns) == 1):
+            continue
+        fn = fns[0]
+        out, env = U.PathEval().run_body(fn, [S("info")])
+        o = U.outcome_value(out)
+        v = o[1] if len(o) > 1 else None
+        ok = False
+        got = showv(v)
+        adt = q.adts.get(adt_path)
+        if v is not None and v[0] == "st" and adt:
+            names = sorted(f["name"] for f in adt["variants"][0]["fields"])
+            ok = sorted(v[2]) == names and v[2].get("info") == S("info") and v[2].get("javadoc") == T.V("None")
+            for fname, fv in v[2].items():
+                if fname not in ("info", "javadoc"):
+                    ok = ok and U.is_call(fv, "new", "default") and not U.call_args(fv)
+        R.inst(rid, "new:%s" % adt_name, ok, sp=fn["sp"], got=got, expect="{ info, javadoc: none, children: empty }")
+    want_fk = {"ClassMapping": {"names": "from_first_name(key)"},
+               "FieldMapping": {"desc": "key.desc", "names": "from_first_name(key.name)"},
+               "MethodMapping": {"desc": "key.desc", "names": "from_first_name(key.name)"},
+               "ParameterMapping": {"index": "key.index", "names": "none()"}}
+    for adt_name, want in want_fk.items():
+        fns = [b for b in q.fns("from_key") if (b.get("impl_ty") or "").split("<")[0] == "quill::tree::mappings::" + adt_name]
+        if not R.anchor(rid, "impl FromKey for %s" % adt_name, len(fns) == 1):
+            continue
+        out, env = U.PathEval().run_body(fns[0], [S("key")])
+        o = U.outcome_value(out)
+        v = o[1] if len(o) > 1 else None
+        got = {k: strip(T.show(x)) for k, x in v[2].items()} if v is not None and v[0] == "st" else showv(v)
+        R.inst(rid, "from_key:%s" % adt_name, got == want, sp=fns[0]["sp"], expect=want, got=got)
+    fn = fn_in(q, "from_first_name", impl_ty="names::Names<")
+    if R.anchor(rid, "fn Names::from_first_name", fn):
+        pe = U.PathEval(hooks={"first_mut": lambda a, n, pe: T.V("Some", S("slot0")), "get_mut": lambda a, n, pe: T.V("Some", S("slot0")) if a[1:] == [("i", 0)] else None})
+        out, env = pe.run_body(fn, [S("src")])
+        asg = [(T.show(e["l"]), T.show(e["r"])) for e in pe.trace if e["kind"] == "assign" and e["cond"] == 0]
+        o = U.outcome_value(out)
+        v = o[1] if len(o) > 1 else None
+        init = [e for e in pe.calls_named("from_fn")]
+        fill = strip(T.show(pe.apply(init[0]["args"][0], [S("i")]))) if len(init) == 1 and init[0]["args"] and init[0]["args"][0][0] == "closure" else None
+        ok = asg == [("$slot0", "Some($src)")] and fill == "None" and v is not None and v[0] == "st" and U.is_call(v[2].get("names"), "from_fn")
+        R.inst(rid, "from_first_name:only-first-slot", ok, sp=fn["sp"], got={"assign": asg, "fill": fill}, expect="all None, then slot 0 = Some(src)")
+    fn = q.body("quill::tree::mappings_diff::add_child")
+    if R.anchor(rid, "fn mappings_diff::add_child", fn):
+        ms = [n for n in H.walk(fn["body"], into_closures=False) if n.get("k") == "match"]
+        if R.anchor(rid, "add_child: match map.entry(key)", len(ms) == 1, sp=fn["sp"]):
+            sc = U.PathEval().run(ms[0]["scrut"], {pid: v for pid, v in zip(H.param_ids(fn), [S("map"), S("key"), S("child")])})
+            R.inst(rid, "add_child:entry-of-key", sc[0] == "ok" and strip(T.show(sc[1])) == "entry(map, key)", sp=fn["sp"], got=showv(sc[1]) if sc[0] == "ok" else sc[0])
+            for variant, want in (("Occupied", "Err"), ("Vacant", "Ok(insert(e, child))")):
+                pe = U.PathEval(scrut_override={id(ms[0]): T.V(variant, S("e"))})
+                out, env = pe.run_body(fn, [S("map"), S("key"), S("child")])
+                o = U.outcome_value(out)
+                got = "Err" if o[0] == "err" else "Ok(%s)" % strip(T.show(o[1]))
+                R.inst(rid, "add_child:%s" % variant, got == want, sp=fn["sp"], expect=want, got=got)
+    R.floor(rid, 9 + 4 + 1 + 3)
